@@ -98,6 +98,49 @@ func TestVerifC04(t *testing.T) {
 	}
 	rng := hk.NewRNG(hk.Seed(), "c04")
 
+	// ONE Write of a little more than 2^30 bytes (an untouched zero mapping; a file mapped into memory is hashed like
+	// this): the per-call length crosses 30 bits. Oracle: the same bytes written in 2^26-byte pieces must give the same
+	// digest - two histories of one message. Runs beside the rest of the check and is joined at its end.
+	giantDone := make(chan struct{})
+	go func() {
+		defer close(giantDone)
+		n := 1<<30 + 64 + 5
+		z := hk.ZeroMap(n+4096, false)
+		if z == nil {
+			return
+		}
+		defer hk.Unmap(z)
+		var want, got []byte
+		var wn int
+		var werr error
+		var pm string
+		var p bool
+		pieces := make(chan struct{})
+		go func() {
+			defer close(pieces)
+			h := New()
+			for off := 0; off < n; off += 1 << 26 {
+				end := off + 1<<26
+				if end > n {
+					end = n
+				}
+				h.Write(z[off:end])
+			}
+			want = h.Sum(nil)
+		}()
+		p, pm, _, _ = hk.Try(func() {
+			one := New()
+			wn, werr = one.Write(z[:n])
+			got = one.Sum(nil)
+		})
+		<-pieces
+		if p || wn != n || werr != nil || !bytes.Equal(got, want) {
+			r.Violation("single-write-of-2^30-bytes-differs-from-writes-in-pieces", hk.D{"len": n, "write_returned": wn, "single_write": hk.Hex(got), "in_pieces": hk.Hex(want), "panic": pm})
+		}
+		r.Eval("giant-single-write:2^30+69")
+	}()
+	defer func() { <-giantDone }()
+
 	if New().Size() != 32 || New().BlockSize() != 64 {
 		r.Violation("size-or-blocksize", hk.D{"size": New().Size(), "block": New().BlockSize()})
 	}
